@@ -398,9 +398,14 @@ pub fn run_controlled(cfg: Config, n: usize, policy: Policy) -> RunOutcome {
 
 /// run without controlling the schedule (real races), still without the 100 ms sleeps
 pub fn run_free(cfg: Config, n: usize, jitter: Option<u64>, log_pp: bool) -> RunOutcome {
+    run_free_opts(cfg, n, jitter, log_pp, None)
+}
+
+pub fn run_free_opts(cfg: Config, n: usize, jitter: Option<u64>, log_pp: bool, crash_at: Option<usize>) -> RunOutcome {
     let mut c = Ctl::new(ctl::Mode::Free, n);
     Arc::get_mut(&mut c).unwrap().jitter = jitter;
     c.inner.lock().unwrap().log_pp = log_pp;
+    c.inner.lock().unwrap().crash_at = crash_at;
     let rx = spawn_run(cfg, c.clone());
     let mut verdict;
     let mut detail = String::new();
